@@ -347,8 +347,12 @@ func (eng *Engine) secrecy(props []string) []*Obligation {
 		return false, nm
 	}
 	isSource := func(c *ssa.CallCommon) bool {
-		nm := calleeName(c)
-		return nm == "go.1password.io/spg.randomUint32" || nm == "go.1password.io/spg.randomUint32n"
+		// by the key the contracts know the function under (a renamed source stays a source)
+		if f, ok := c.Value.(*ssa.Function); ok {
+			k := eng.fnKey(f)
+			return k == "spg.randomUint32" || k == "spg.randomUint32n"
+		}
+		return false
 	}
 	// labels of everything reachable from a value of type t through pointers, slices, maps and fields
 	var reachT func(t types.Type, depth int) labels
